@@ -17,11 +17,15 @@ from .. import tlc
 
 VALID = ["Red", "Blue", "Item-count/3", "Age/25", "Event", "Sensory-event", "Agent-action", "(Red, Square)",
          "Label/abc", "Green", "(Item, (Circle, Triangle))", "Weight/3 kg"]
-WARN = ["Item/Ext", "Item/Ext/Ext2", "Action/Jumpy", "Age/25 years", "Item-count"]
+WARN = ["Item/Ext", "Item/Ext/Ext2", "Action/Jumpy", "Age/25 years", "Item-count",
+        # tags written in long / partially long form whose issue points INTO the tag text (extension, value)
+        "Item/Object/Blorp", "Item/Object/Man-made-object/Device/Blorp/Extra", "Property/Informational-property/Label/Ext-x/Y"]
 ERR = ["Blah", "Red/Blue", "Property/Red", "(Duration/3 xyz, (Red))", "Age/abc", "Age/#", "Def/Unknown", "(Onset, Red)",
        "Sensory-presentation/Red", "Blahblah/Foo", "Weight/3 xyz", "(Def-expand/Nope, (Red))", "Item/Bläh~",
        "Event/Sensory-event/Wrong", "Red, Red", "(Blue, Green), (Green, Blue)", "Definition/Xyz", "Inset",
-       "Label/a$b", "Item-count/abc"]
+       "Label/a$b", "Item-count/abc",
+       "Property/Informational-property/Label/ab%c", "Informational-property/Label/#", "Event/Sensory-event/Bläh", "Property/Data-property/Data-value/Quantitative-value/Item-count/x$y",
+       "Attribute/Blech/Blorp"]
 STRUCT = [",, ", "(", ")", " Red (Blue) "]
 DEFS = "(Definition/Acc/#, (Acceleration/#, Red)), (Definition/Plain, (Square))"
 DEFUSE = ["Def/Acc/3 hz", "Def/Acc/3", "Def/Acc/3 m-per-s^2", "(Def-expand/Acc/3 hz, (Acceleration/3 hz, Red))", "Def/Plain/3", "Def/Acc",
